@@ -1,3 +1,4 @@
+import TinysetModel.Proofs.TotalOpsRun
 import TinysetModel.Proofs.PropsAux
 import TinysetModel.Proofs.Ctor
 import TinysetModel.Proofs.Demo
@@ -129,6 +130,50 @@ example : [.bool true, .bool true, .bool true, .bool true, .bool true, .bool tru
 /-- a drawn placeholder (`bits = 0`) and a dense hint -/
 example : withCapBits cfg64 detRng 10 0 () = .ok (.heap 0 10 6155844928113846750 (Array.replicate 10 0), ()) := by decide +kernel
 example : withCapMax cfg64 detRng 10 1000 () = .ok (.heap 0 19 64 (Array.replicate 19 0), ()) := by decide +kernel
+
+/-! ### hinted sets: every history RETURNS, with the answers of `new()` -/
+
+/-- `with_capacity_and_bits(cap, bits)` followed by any history (SetU64): every call returns normally and answers
+exactly like an ideal set started empty — i.e. like `new()` —, for every `cap`, every `bits` that fits the header
+word (also 0, 63, 64, 65 and a caller-chosen placeholder), every generator, as long as `cap` plus the number of
+operations stays below 2^60 -/
+theorem bits_then_history_returns_u64 {D : Type} (g : Rng D) (fuel cap bits : Nat) (hbits : bits < 2 ^ 64) (ops : List Op)
+    (hops : ∀ op ∈ ops, op.InRange 64) {d₀ d : D} {r : Rp} (h0 : withCapBits cfg64 g cap bits d₀ = .ok (r, d))
+    (hlen : cap + ops.length < 2 ^ 60) :
+    ∃ r' outs d', runOps cfg64 g (fuel + 2) r ops d = .ok ((r', outs), d') ∧ WF cfg64 r' ∧
+      outs = (specRun [] ops).2 ∧ ∀ x, x ∈ elems cfg64 r' ↔ x ∈ (specRun [] ops).1 := by
+  obtain ⟨wf, he⟩ := withCapBits_ok cfg64_ok g cap bits hbits d₀ d r h0
+  have hc : CapOK r cap := by
+    rcases withCapBits_shape g cap bits d₀ d r h0 with ⟨_, rfl⟩ | ⟨_, b', rfl, _⟩
+    · exact ⟨by simp [capacity], by simp [len]⟩
+    · exact ⟨by simp [capacity]; omega, by simp [len]⟩
+  have := run_total_from_u64 g fuel ops hops wf hc hlen d
+  rw [he] at this
+  exact this
+theorem bits_then_history_returns_u32 {D : Type} (g : Rng D) (fuel cap bits : Nat) (hbits : bits < 2 ^ 32) (ops : List Op)
+    (hops : ∀ op ∈ ops, op.InRange 32) {d₀ d : D} {r : Rp} (h0 : withCapBits cfg32 g cap bits d₀ = .ok (r, d))
+    (hlen : cap + ops.length < 2 ^ 28) :
+    ∃ r' outs d', runOps cfg32 g (fuel + 2) r ops d = .ok ((r', outs), d') ∧ WF cfg32 r' ∧
+      outs = (specRun [] ops).2 ∧ ∀ x, x ∈ elems cfg32 r' ↔ x ∈ (specRun [] ops).1 := by
+  obtain ⟨wf, he⟩ := withCapBits_ok cfg32_ok g cap bits hbits d₀ d r h0
+  have hc : CapOK r cap := by
+    rcases withCapBits_shape g cap bits d₀ d r h0 with ⟨_, rfl⟩ | ⟨_, b', rfl, _⟩
+    · exact ⟨by simp [capacity], by simp [len]⟩
+    · exact ⟨by simp [capacity]; omega, by simp [len]⟩
+  have := run_total_from_u32 g fuel ops hops wf hc hlen d
+  rw [he] at this
+  exact this
+/-- `with_capacity_of(&other)` followed by any history: returns, answers like `new()` -/
+theorem of_then_history_returns_u64 {D : Type} (g : Rng D) (fuel : Nat) {other : Rp} (wo : WF cfg64 other) (ops : List Op)
+    (hops : ∀ op ∈ ops, op.InRange 64) (d : D) (hlen : capacity other + ops.length < 2 ^ 60) :
+    ∃ r' outs d', runOps cfg64 g (fuel + 2) (withCapOf other) ops d = .ok ((r', outs), d') ∧ WF cfg64 r' ∧
+      outs = (specRun [] ops).2 ∧ ∀ x, x ∈ elems cfg64 r' ↔ x ∈ (specRun [] ops).1 := by
+  obtain ⟨wf, he, hcap⟩ := withCapOf_ok cfg64_ok wo
+  have hl : len (withCapOf other) = 0 := by cases other <;> rfl
+  have hc : CapOK (withCapOf other) (capacity other) := ⟨by rw [hcap]; omega, by rw [hl]; omega⟩
+  have := run_total_from_u64 g fuel ops hops wf hc hlen d
+  rw [he] at this
+  exact this
 
 end C15
 
